@@ -8,8 +8,8 @@ from .lib import coq_mismatches, HarnessError
 LEVEL = "proof"
 META = {
     "category": "proof",
-    "text": "Coq refinement proof: a pointer-level model of starlark/hashtable.go (chains of 8-slot buckets, overflow buckets, insert scanning the whole chain and reusing the last empty slot, the overloaded test and grow = rehash in list order, delete unlinking through prevLink / moving tailLink / zeroing the slot, clear, lookup, first, items, len; the insertion-order doubly linked list as next/prevLink/head/tailLink pointers in a store) refines an ordered association list for EVERY hash function (Section variable, hash 0 remapped as in the code) and every operation history (induction over the operation list), including the derived operations pop/popitem/setdefault/update/Dict.Union, Set union/intersection/difference/symmetric_difference and issubset/issuperset (hashtable.count) built from the table operations. The model is hand-written and tied to /repo on every run: the real Dict/Set are driven through the Go API and through Starlark methods/operators with keys whose Hash() the generator chooses; exhaustive histories over 5 keys of which 3 share a hash and long random histories under adversarial hash distributions are compared after every operation with a naive association list in Go, and a sample of histories is evaluated inside Coq (vm_compute) against Concrete.v (correspondence) and Spec.v (oracle).",
-    "note": "Trusted: Coq kernel + vm_compute; the correspondence harness, its generators and its Go association list; the model abstracts Go's heap to a store indexed by (chain, slot index), uint32 len/hash wrap-around, Equal/Hash errors and the frozen/itercount guards (C04/C06) -- see coq/C12/Concrete.v header. Exhaustive enumeration to length 7 uses the core alphabet (insert/delete x 5 keys, popfirst, clear) through the Go API; the full alphabet with the derived operations goes to length 6 (dict, Go API) / 5 (set; Starlark route) because of the time limit.",
+    "text": "Coq refinement proof: a pointer-level model of starlark/hashtable.go (chains of 8-slot buckets, overflow buckets, insert scanning the whole chain and reusing the last empty slot, the overloaded test and grow = rehash in list order, delete unlinking through prevLink / moving tailLink / zeroing the slot, clear, lookup, first, items, len; the insertion-order doubly linked list as next/prevLink/head/tailLink pointers in a store) refines an ordered association list for EVERY hash function (Section variable, hash 0 remapped as in the code) and every operation history (induction over the operation list), including the derived operations pop/popitem/setdefault/update/Dict.Union, Set union/intersection/difference/symmetric_difference and issubset/issuperset (hashtable.count) built from the table operations. The model is hand-written and tied to /repo on every run: the real Dict/Set are driven through the Go API and through Starlark methods/operators with keys whose Hash() the generator chooses; exhaustive histories over 5 keys of which 3 share a hash and long random histories under adversarial hash distributions are compared after every operation with a naive association list in Go, and a sample of histories is evaluated inside Coq (vm_compute) against Concrete.v (correspondence) and Spec.v (oracle). GUARDED LAYER (coq/C12/Guarded.v, GuardedSpec.v, ProofsGuarded.v): the same pointer-level table with hashtable.go's frozen flag and uint32 itercount (wrap explicit), every mutator behind checkMutable at the place the code has it (insert before the lazy init; delete; clear also when empty; popitem / pop and s.clear() with their look-before-call tests), iterate / Done touching itercount only when not frozen, freeze; theorems: a refused mutation returns a state EQUAL to the one given (whole store, for every state), an allowed one is the Concrete.v operation (inherits refinement_step), readers never write, iterate;Done restores itercount modulo 2^32, every history of guarded events agrees with the association list + the two flags (induction over the event list). Tie: `c12 guard` drives Dict / Set through the public Go API with Freeze / Iterate / Done events; every observation (output or class of refusal, Len, items) is evaluated in Coq against Guarded.v and GuardedSpec.v, and the bytes of the hashtable struct and its buckets (hook VerifHeader) must not change across a refused mutator, a reader, any event on a frozen table or a whole iteration.",
+    "note": "Trusted: Coq kernel + vm_compute; the correspondence harness, its generators and its Go association list; the model abstracts Go's heap to a store indexed by (chain, slot index), uint32 len/hash wrap-around, Equal/Hash errors -- see coq/C12/Concrete.v header; the frozen/itercount guards are modelled in the guarded layer (Guarded.v) only, the Freeze() calls on keys and values are not (C04); refusals are compared by class, which the harness reads off the error text (frozen / during iteration / empty). Exhaustive enumeration to length 7 uses the core alphabet (insert/delete x 5 keys, popfirst, clear) through the Go API; the full alphabet with the derived operations goes to length 6 (dict, Go API) / 5 (set; Starlark route) because of the time limit.",
     "technique": "Coq refinement proof over an executable pointer-level model + exhaustive and random differential runs against an association list + vm_compute correspondence and Spec.v oracle",
 }
 
@@ -106,6 +106,128 @@ def dcase_term(h):
     return "(mkD %s %s [%s] %d)" % (pairs(hs), init, "; ".join(op_term(o) for o in h["ops"]), digest(h))
 
 
+# ---- the guarded layer (freeze / iterate / Done events): terms for GuardedCheck.v
+GHEADER = ("From Coq Require Import List NArith.\n"
+           "From SV Require Import C12.Ops C12.GuardedOps C12.GuardedCheck.\n"
+           "Import ListNotations.\nOpen Scope N_scope.\n")
+
+
+def gop_term(o):
+    n = o["op"]
+    k, v = o.get("k", 0), o.get("v", 0)
+    if n == "insert":
+        return "(GInsert %d %d)" % (k, v)
+    if n == "delete":
+        return "(GDelete %d)" % k
+    if n == "lookup":
+        return "(GLookup %d)" % k
+    if n == "issubset":
+        return "(GIsSubset %s)" % nums(o.get("ks") or [])
+    return {"clear": "GClear", "setclear": "GSetClear", "popfirst": "GPopFirst", "items": "GItems", "len": "GLen",
+            "iterbegin": "GIterBegin", "iterdone": "GIterDone", "iterate": "GIterate", "freeze": "GFreeze"}[n]
+
+
+def gout_term(o):
+    t = o["t"]
+    if t == "err":
+        return "(GErr %s)" % {"frozen": "Frozen", "iterating": "Iterating"}[o["e"]]
+    if t == "items":
+        return "(GItemsOut %s)" % pairs(o.get("l") or [])
+    if t == "len":
+        return "(GLenOut %d%%nat)" % o.get("n", 0)
+    if t == "keys":
+        return "(GKeysOut %s)" % nums(o.get("ks") or [])
+    return "(GO %s)" % out_term(o)
+
+
+def gcase_term(h):
+    obs = "[" + "; ".join("(%s, %d%%nat, %s)" % (gout_term(x["out"]), x["len"], pairs(x["items"] or [])) for x in h["obs"]) + "]"
+    init = "None" if h["init"] < 0 else "(Some %d%%nat)" % h["init"]
+    used = set()
+    for o in h["ops"]:
+        used.add(o.get("k", 0))
+        used.update(o.get("ks") or [])
+    hs = [p for p in h["hashes"] if p[0] in used]
+    return "(mkGC %s %s [%s] %s)" % (pairs(hs), init, "; ".join(gop_term(o) for o in h["ops"]), obs)
+
+
+def guard_first_diff(ctx, terms):
+    """Index of the first event of each case that differs from GuardedSpec.v (None: none does)."""
+    import re
+    text = GHEADER + "Definition D := Eval vm_compute in map guard_spec_first_diff [\n" + ";\n".join(terms) + "].\nPrint D.\n"
+    out, rc = ctx.coq_run("c12_guard_diff", text, timeout=600)
+    if rc != 0:
+        raise HarnessError("coq evaluation of guard cases failed:\n" + out[-3000:])
+    m = re.search(r"D\s*=\s*\[(.*?)\]\s*:", out, re.S)
+    res = []
+    for t in (m.group(1).split(";") if m else []):
+        d = re.search(r"Some\s+(\d+)", t)
+        res.append(int(d.group(1)) if d else None)
+    return res
+
+
+GUARD_READERS = ("lookup", "items", "len", "issubset")
+
+
+def guard_writes(h):
+    """Events that wrote to the table's memory although the guarded layer's theorems say the state
+    returned equals the state given: a refused mutator (refused_leaves_table_untouched), a reader
+    (reads_never_write), any event on a frozen table (both), a whole iterate .. Done loop
+    (iterate_balanced).  Returns [(index, why)]."""
+    bad, frozen = [], False
+    for i, (o, x) in enumerate(zip(h["ops"], h["obs"])):
+        if x.get("w"):
+            if x["out"]["t"] == "err":
+                bad.append((i, "refused (%s) but" % x["out"]["e"]))
+            elif o["op"] in GUARD_READERS:
+                bad.append((i, "a reader, but"))
+            elif frozen:
+                bad.append((i, "on a frozen table, but"))
+            elif o["op"] == "iterate":
+                bad.append((i, "a whole iterate .. Done loop, but"))
+        if o["op"] == "freeze":
+            frozen = True
+    return bad
+
+
+def guard_stats(hs):
+    """What the sample of guarded histories exercised (measured on the observations)."""
+    st = {"histories": len(hs), "events": 0, "refused_frozen": 0, "refused_iterating": 0,
+          "refused_insert_of_existing_key": 0, "popfirst_empty_while_refusing": 0, "setclear_empty_while_refusing": 0,
+          "clear_refused_on_empty_table": 0, "iterate_or_done_on_frozen": 0, "mutation_allowed_after_done": 0, "by_kind": {}, "by_hash_style": {}}
+    for h in hs:
+        st["by_kind"][h["tkind"]] = st["by_kind"].get(h["tkind"], 0) + 1
+        st["by_hash_style"][h.get("style", "?")] = st["by_hash_style"].get(h.get("style", "?"), 0) + 1
+        frozen, live, items, had_live = False, 0, [], False
+        for o, x in zip(h["ops"], h["obs"]):
+            st["events"] += 1
+            out = x["out"]
+            refusing = frozen or live > 0
+            if out["t"] == "err":
+                st["refused_frozen" if out["e"] == "frozen" else "refused_iterating"] += 1
+                if o["op"] == "insert" and any(p[0] == o["k"] for p in items):
+                    st["refused_insert_of_existing_key"] += 1
+                if o["op"] == "clear" and not items:
+                    st["clear_refused_on_empty_table"] += 1
+            elif refusing and o["op"] == "popfirst":
+                st["popfirst_empty_while_refusing"] += 1
+            elif refusing and o["op"] == "setclear":
+                st["setclear_empty_while_refusing"] += 1
+            elif o["op"] in ("insert", "delete", "clear") and had_live and not refusing:
+                st["mutation_allowed_after_done"] += 1
+            if o["op"] == "freeze":
+                frozen = True
+            elif o["op"] in ("iterbegin", "iterdone", "iterate") and frozen:
+                st["iterate_or_done_on_frozen"] += 1
+            elif o["op"] == "iterbegin":
+                live += 1
+                had_live = True
+            elif o["op"] == "iterdone":
+                live -= 1
+            items = x["items"] or []
+    return st
+
+
 def coq_eval(ctx, terms, shard=250):
     """Indices of the cases on which model_ok_d / spec_ok_d are false (one vm_compute per shard)."""
     import re
@@ -170,6 +292,7 @@ def plan(ctx):
     jobs.append(("bigsets", ["bigsets", "-n", "60" if q else "900", "-seed", seed], 600))
     jobs.append(("programs", ["programs", "-n", "200" if q else "4000", "-maxops", "30", "-seed", seed], 600))
     jobs.append(("sample", ["sample", "-n", "60" if q else "1200", "-maxops", "28" if q else "40", "-seed", seed], 300))
+    jobs.append(("guard", ["guard", "-n", "150" if q else "2500", "-maxops", "20" if q else "30", "-seed", seed], 300))
     return jobs
 
 
@@ -196,11 +319,11 @@ def run(ctx):
         ctx.proofs()
         return replay(ctx, hx, ctx.replay_path)
     # Check.v (decidable comparison used below) and History.v are not imported by Properties.v
-    ok, log = ctx.coq_make(["C12/Check.vo", "C12/History.vo"])
+    ok, log = ctx.coq_make(["C12/Check.vo", "C12/History.vo", "C12/GuardedCheck.vo"])
     if not ok:
         ctx.broken("coq-build:C12/Check.vo", log[-2000:])
     jobs = plan(ctx)
-    jobs.sort(key=lambda j: j[0] != "sample")  # the sample first: its Coq evaluation overlaps the rest
+    jobs.sort(key=lambda j: {"sample": 0, "guard": 1}.get(j[0], 2))  # the samples first: their Coq evaluation overlaps the rest
     results = {}
 
     def one(job):
@@ -224,11 +347,22 @@ def run(ctx):
         ctx.log("evaluating %d sample histories in Coq (model and specification)" % len(terms))
         return hs, good, coq_eval(ctx, terms)
 
+    def eval_guard(fut):
+        lines = fut.result()[2]
+        ghs = [l for l in lines if l.get("kind") == "ghist"]
+        ggood = [h for h in ghs if not h.get("err")]
+        ctx.log("evaluating %d histories with freeze / iterate / Done events in Coq (Guarded.v and GuardedSpec.v)" % len(ggood))
+        gterms = [gcase_term(h) for h in ggood]
+        bm, bs = coq_mismatches(ctx, "c12_guard", GHEADER, gterms, ["guard_model_ok", "guard_spec_ok"], shard=500, timeout=800)
+        diffs = guard_first_diff(ctx, [gterms[i] for i in bs]) if bs else []
+        return ghs, ggood, bm, bs, diffs
+
     # the exhaustive runs use 16 workers each; run a few invocations side by side, evaluate the
     # sample in Coq and build + audit the Coq development meanwhile
-    with cf.ThreadPoolExecutor(max_workers=3 if ctx.quick() else 2) as ex, cf.ThreadPoolExecutor(max_workers=1) as ex2:
+    with cf.ThreadPoolExecutor(max_workers=3 if ctx.quick() else 2) as ex, cf.ThreadPoolExecutor(max_workers=2) as ex2:
         futs = [ex.submit(one, j) for j in jobs]
         fut_eval = ex2.submit(eval_sample, futs[0])
+        fut_guard = ex2.submit(eval_guard, futs[1])
         ctx.proofs()
         for name, rc, lines, err in (f.result() for f in futs):
             results[name] = lines
@@ -238,6 +372,7 @@ def run(ctx):
             ctx.log("%-34s %s" % (name, "; ".join(
                 "%s histories, %s mismatches" % (l.get("histories"), l.get("mismatches")) for l in lines if l.get("kind") in ("exh", "rand", "prog", "big")) or "%d lines" % len(lines)))
         hs, good, (bad_model, bad_spec) = fut_eval.result()
+        ghs, ggood, gbad_model, gbad_spec, gdiffs = fut_guard.result()
 
     dist = {}
     evaluations = 0
@@ -292,6 +427,35 @@ def run(ctx):
     if only_model:
         h = good[only_model[0]]
         ctx.broken("correspondence:C12.Concrete", "model and implementation differ on %d sample histories where the specification is met, e.g. %s" % (len(only_model), json.dumps(h)[:1800]))
+    # ---- the guarded layer: freeze / iterate / Done events against Guarded.v and GuardedSpec.v
+    for h in ghs:
+        if h.get("err"):
+            ctx.finding("%s:guard:panic" % h["tkind"], "host panic / unexpected error while running a history with freeze / iterate events: %s" % h["err"], h)
+    for j, i in enumerate(gbad_spec):
+        h = ggood[i]
+        at = gdiffs[j] if j < len(gdiffs) and gdiffs[j] is not None else 0
+        at = min(at, len(h["ops"]) - 1)
+        before = h["obs"][at - 1] if at > 0 else {"len": 0, "items": []}
+        ctx.finding("%s:guard:%s" % (h["tkind"], h["ops"][at]["op"]),
+                    "%s through the Go API with freeze / iterate / Done events: event %d (%s) gives out/len/items %s (before it: len %s items %s); GuardedSpec.v (association list + frozen + itercount) says otherwise" % (
+                        h["tkind"], at, json.dumps(h["ops"][at]), json.dumps(h["obs"][at]), before["len"], json.dumps(before["items"])),
+                    {"how": "c12 guard events; re-run: bin/check C12 (seed %d, guard history id %s)" % (ctx.seed, h.get("id")),
+                     "tkind": h["tkind"], "hashes": h["hashes"], "init": h["init"], "ops": h["ops"][:at + 1], "obs": h["obs"][:at + 1]})
+    for h in ggood:
+        for at, why in guard_writes(h)[:1]:
+            ctx.finding("%s:guard-write:%s" % (h["tkind"], h["ops"][at]["op"]),
+                        "%s through the Go API: event %d (%s, output %s) is %s the bytes of the hashtable struct / its buckets differ after it (the table was written)" % (
+                            h["tkind"], at, json.dumps(h["ops"][at]), json.dumps(h["obs"][at]["out"]), why),
+                        {"how": "c12 guard events; re-run: bin/check C12 (seed %d, guard history id %s)" % (ctx.seed, h.get("id")),
+                         "tkind": h["tkind"], "hashes": h["hashes"], "init": h["init"], "ops": h["ops"][:at + 1], "obs": h["obs"][:at + 1]})
+    gbad_spec_s = set(gbad_spec)
+    gonly_model = [i for i in gbad_model if i not in gbad_spec_s]
+    if gonly_model:
+        h = ggood[gonly_model[0]]
+        ctx.broken("correspondence:C12.Guarded", "guarded model and implementation differ on %d histories where the guarded specification is met, e.g. %s" % (len(gonly_model), json.dumps(h)[:1800]))
+    gstats = guard_stats(ggood)
+    dist["guard (Coq)"] = gstats
+
     nontrivial = 0
     for h in good:
         c = h.get("cov", {})
@@ -312,16 +476,17 @@ def run(ctx):
     samples = [{"tkind": h["tkind"], "route": h["route"], "hashes": h["hashes"], "init": h["init"], "ops": h["ops"], "final": h["obs"][-1] if h["obs"] else None, "cov": h.get("cov")}
                for h in good[:2] + good[len(good) // 2: len(good) // 2 + 1]]
     cov = {
-        "evaluations": evaluations + sum(len(h["ops"]) for h in good),
-        "distinct_nontrivial": histories + nontrivial,
-        "rule": "every operation history up to the stated length over 5 keys (3 sharing one hash; configurations zero3 = shared hash 0, same5 = all five equal, prefill = the 3 keys share the hash of 7 resident keys of which 2 were deleted) is enumerated, each distinct; alphabets: core = insert/delete x 5 keys, popfirst, clear; full = core + setdefault x 5, update, union (dict) / update, union, intersection, difference, symmetric_difference by method with duplicates and by operator (set); for sets issubset / issuperset / the six comparison operators are queried after the last operation as well; compared with a Go association list after the last operation of every history (all prefixes are histories too): output, len, item order, lookup of all 5 keys; stored VALUES include None (encoded 0) for about a third / quarter of the dict inserts, setdefaults and update / union operands in every generator, so every value-returning operation (get, d[k], `in`, pop with and without default, popitem, setdefault on present and absent keys) also meets keys that are present with the value None; NO ALIASING: a derived operation must return a fresh collection -- the operands of every derived operation in a history are remembered with their contents and re-read at every later comparison (they must never change while the result is mutated), and after the last operation of every 4th history (every 32nd in the enumerations of length >= 6) each derived operation is applied with an EMPTY and a small second operand (method and operator forms), the result compared with the association list, then result, left and right operand are mutated in turn while the other two must not move; big collections (bigsets): tables of 8..64 chains with ONE chain of 65..200 entries (hashes equal modulo 2^12, some fully equal) next to populated chains, filled in shuffled order with deletions, then issubset / issuperset by method and the six comparison operators and every derived operation against second big collections (reversed, superset, subset missing one element of the long / a neighbour chain, shuffle with duplicates, nearly disjoint), both routes, compared after every operation; random histories: hash distributions include a heavy chain next to populated chains and interleave subset / superset / comparison queries against big second collections, compared after every operation; programs: histories written as Starlark source over built-in key types (short / long strings, small / big ints, tuples, None, True) including keyword arguments of dict.update, executed by the interpreter, items compared after every statement; sample histories: every observation evaluated in Coq against Concrete.v and Spec.v. distinct_nontrivial = enumerated histories + random histories + sample histories with >= 5 operations",
+        "evaluations": evaluations + sum(len(h["ops"]) for h in good) + gstats["events"],
+        "distinct_nontrivial": histories + nontrivial + sum(1 for h in ggood if any(x["out"]["t"] == "err" for x in h["obs"])),
+        "rule": "every operation history up to the stated length over 5 keys (3 sharing one hash; configurations zero3 = shared hash 0, same5 = all five equal, prefill = the 3 keys share the hash of 7 resident keys of which 2 were deleted) is enumerated, each distinct; alphabets: core = insert/delete x 5 keys, popfirst, clear; full = core + setdefault x 5, update, union (dict) / update, union, intersection, difference, symmetric_difference by method with duplicates and by operator (set); for sets issubset / issuperset / the six comparison operators are queried after the last operation as well; compared with a Go association list after the last operation of every history (all prefixes are histories too): output, len, item order, lookup of all 5 keys; stored VALUES include None (encoded 0) for about a third / quarter of the dict inserts, setdefaults and update / union operands in every generator, so every value-returning operation (get, d[k], `in`, pop with and without default, popitem, setdefault on present and absent keys) also meets keys that are present with the value None; NO ALIASING: a derived operation must return a fresh collection -- the operands of every derived operation in a history are remembered with their contents and re-read at every later comparison (they must never change while the result is mutated), and after the last operation of every 4th history (every 32nd in the enumerations of length >= 6) each derived operation is applied with an EMPTY and a small second operand (method and operator forms), the result compared with the association list, then result, left and right operand are mutated in turn while the other two must not move; big collections (bigsets): tables of 8..64 chains with ONE chain of 65..200 entries (hashes equal modulo 2^12, some fully equal) next to populated chains, filled in shuffled order with deletions, then issubset / issuperset by method and the six comparison operators and every derived operation against second big collections (reversed, superset, subset missing one element of the long / a neighbour chain, shuffle with duplicates, nearly disjoint), both routes, compared after every operation; random histories: hash distributions include a heavy chain next to populated chains and interleave subset / superset / comparison queries against big second collections, compared after every operation; programs: histories written as Starlark source over built-in key types (short / long strings, small / big ints, tuples, None, True) including keyword arguments of dict.update, executed by the interpreter, items compared after every statement; sample histories: every observation evaluated in Coq against Concrete.v and Spec.v; guard histories: random histories over 3..12 keys (five hash styles, zero value or NewDict/NewSet(n)) of insert / delete / clear / s.clear() / popitem / pop / lookup / items / len / issubset interleaved with Iterate (held open), Done, whole iterations and Freeze (at a planned position in half of the histories, at position 0 in an eighth) through the public Go API; after every event the output or the class of the refusal (frozen / iterating), Len() and the items are evaluated in Coq against Guarded.v (pointer-level model with the frozen / itercount guards) and GuardedSpec.v (association list + the two flags); every event is bracketed by two copies of the bytes of the hashtable struct and all its buckets (hook VerifHeader) and no byte may differ after a refused mutator, a reader, any event on a frozen table, or a whole iterate .. Done loop (the cases in which the theorems say the returned state EQUALS the given one) -- what they exercised is counted under distribution[\"guard (Coq)\"]. distinct_nontrivial = enumerated histories + random histories + sample histories with >= 5 operations + guard histories with at least one refusal",
         "samples": samples, "distribution": dist, "structure_coverage": cover,
         "histories": histories + len(good),
         "model_mismatches": len(bad_model), "spec_mismatches": len(bad_spec),
+        "guard_model_mismatches": len(gbad_model), "guard_spec_mismatches": len(gbad_spec),
     }
     return ctx.finish(LEVEL, cov, assumptions=[
         "Go heap abstracted to a store indexed by (chain, 8*bucket+slot); fresh table after grow/clone is a fresh store; bucket0 inline array not distinguished",
         "len and hash are unbounded naturals (no uint32 wrap); overloaded's float64 comparison written as 2*elems >= 13*buckets",
-        "Equal is a total boolean equality consistent with Hash; Hash never fails; frozen/itercount guards not modelled (C04/C06)",
+        "Equal is a total boolean equality consistent with Hash; Hash never fails; frozen/itercount guards modelled in the guarded layer (Guarded.v) only; freeze() of keys / values not modelled (C04)",
         "the second operand of derived operations is the sequence its iterator yields",
     ])
